@@ -144,9 +144,20 @@ def pipe_case(c):
         R = gi // (npts[1] * npts[2] * npts[3])
         V = gi % npts[3]
         out = {}
-        if mode == 'pipe':
+        if mode in ('pipe', 'reuse'):
             f.getAllData()[:] = S.density._fEq[R, V] * (1.0 + simdriver.exact_field(gi, seed) / 8.0)
+        elif mode == 'axi':
+            # a perturbation that does not depend on theta: every poloidal mode m != 0 of the density is (exactly, for a
+            # power-of-two theta count) zero, after the non-empty mode 0 was solved by the same object
+            Z = (gi // npts[3]) % npts[2]
+            f.getAllData()[:] = S.density._fEq[R, V] * (1.0 + simdriver.exact_field(R * npts[2] + Z, seed) / 8.0)
         else:
+            f.getAllData()[:] = S.density._fEq[R, V]
+        if mode == 'reuse':
+            # the objects of the time loop are used again and again: a perturbed state first, then the equilibrium
+            S.density.getPerturbedRho(f, S.rho)
+            S.solve_qn()
+            f.setLayout('v_parallel')
             f.getAllData()[:] = S.density._fEq[R, V]
         S.density.getPerturbedRho(f, S.rho)
         out['prho'] = simdriver.block_info(S.rho)
@@ -355,6 +366,9 @@ def run():
                 pcases.append(('pipe', npts, g, el, chk.seed % 997))
             if g in ((1, 1), (2, 2), (3, 2)) or not quick:
                 pcases.append(('zero', npts, g, 'chi0', chk.seed % 997))
+            if g in ((1, 1), (2, 2), (2, 1)) or not quick:
+                pcases.append(('axi', npts, g, 'chi0' if npts[1] % 2 == 0 else 'chi1', chk.seed % 997))
+                pcases.append(('reuse', npts, g, 'chi0', chk.seed % 997))
     pres = implrun.run_cases('props.c15', 'pipe_case', pcases, tmo=900.0, chunk=1)
     serial = {}
     worst = {'resolve': 0.0, 'imag': 0.0, 'dense': 0.0, 'round': 0.0, 'herm': 0.0, 'ireal': 0.0, 'drift': 0.0, 'phi_after': 0.0}
@@ -427,7 +441,7 @@ def run():
         if not (prho.imag == 0).all():
             chk.violation(SITE + '.DensityFinder:imag', 'perturbed density has an imaginary part', {'kind': 'impl', 'case': case_l})
         pmax = float(np.abs(phi).max())
-        if mode == 'pipe':
+        if mode in ('pipe', 'axi', 'reuse'):
             # independent per-mode re-solve
             ref, condC, condA = resolve_reference(prho.real.astype(complex), sol, mt, el)
             err = float(np.abs(phi - ref).max())
@@ -447,7 +461,7 @@ def run():
             if not im <= ib:
                 chk.violation(key + ':potential-not-real', '%r: max |imag phi| = %.3g for a real density (bound %.3g, max|phi| %.3g)' % (c, im, ib, pmax), {'kind': 'impl', 'case': case_l})
             # bitwise between process grids
-            sk = (tuple(npts), el)
+            sk = (mode, tuple(npts), el)
             if g == (1, 1):
                 serial[sk] = (phi.tobytes(), phi)
             elif sk in serial and serial[sk][0] != phi.tobytes():
@@ -515,7 +529,7 @@ def replay(path):
         mt = model_tables(o['solver']['nb'], npts[1], (0,), ())
         probs, _ = compare_tables(None, 'QN', o['solver'], mt, npts[1], (0,), (), c)
         print('bookkeeping problems:', probs)
-        if mode == 'pipe':
+        if mode in ('pipe', 'axi', 'reuse'):
             ref, condC, condA = resolve_reference(o['prho'].real.astype(complex), o['solver'], mt, el)
             err = float(np.abs(o['phi'] - ref).max())
             bound = RESOLVE_K * EPS * (condA * condC + npts[1]) * float(np.abs(ref).max())
